@@ -2205,7 +2205,7 @@ class Parameters:
             if new_val is Skip or new_val is Undefined:
                 continue
             elif is_async:
-                async_executor(partial(self_._async_ref, pname, new_val))
+                async_executor(partial(self_._async_ref, pname, new_val, ref))
                 continue
 
             updates[pname] = new_val
@@ -2226,37 +2226,54 @@ class Parameters:
         except Skip:
             value = Undefined
         if is_async:
-            async_executor(partial(self_._async_ref, pobj.name, value))
+            async_executor(partial(self_._async_ref, pobj.name, value, ref))
             value = None
         return ref, deps, value, is_async
 
-    async def _async_ref(self_, pname, awaitable):
-        if not self_.self._param__private.initialized:
-            async_executor(partial(self_._async_ref, pname, awaitable))
+    async def _async_ref(self_, pname, awaitable, ref=None):
+        private = self_.self._param__private
+        if not private.initialized:
+            async_executor(partial(self_._async_ref, pname, awaitable, ref))
+            return
+
+        def superseded():
+            # The parameter has been given a plain value or another
+            # reference since this evaluation was scheduled
+            return ref is not None and private.refs.get(pname) is not ref
+
+        if superseded():
+            if isinstance(awaitable, types.CoroutineType):
+                awaitable.close()
             return
 
         import asyncio
         current_task = asyncio.current_task()
-        running_task = self_.self._param__private.async_refs.get(pname)
-        if running_task is None:
-            self_.self._param__private.async_refs[pname] = current_task
-        elif current_task is not running_task:
-            self_.self._param__private.async_refs[pname].cancel()
+        running_task = private.async_refs.get(pname)
+        if running_task is not None and running_task is not current_task:
+            running_task.cancel()
+        # The most recent evaluation is the one to cancel later on
+        private.async_refs[pname] = current_task
         try:
+            # Results are awaited outside of the syncing scope, so that an
+            # assignment made in the meantime is seen as an override
             if isinstance(awaitable, types.AsyncGeneratorType):
                 async for new_obj in awaitable:
+                    if superseded():
+                        break
                     with _syncing(self_.self, (pname,)):
                         self_.update({pname: new_obj})
             else:
-                with _syncing(self_.self, (pname,)):
-                    try:
-                        self_.update({pname: await awaitable})
-                    except Skip:
-                        pass
+                try:
+                    new_obj = await awaitable
+                except Skip:
+                    return
+                if not superseded():
+                    with _syncing(self_.self, (pname,)):
+                        self_.update({pname: new_obj})
         finally:
             # Ensure we clean up but only if the task matches the currrent task
-            if self_.self._param__private.async_refs.get(pname) is current_task:
-                del self_.self._param__private.async_refs[pname]
+            if private.async_refs.get(pname) is current_task:
+                del private.async_refs[pname]
 
     @classmethod
     def _changed(cls, event):
